@@ -44,7 +44,9 @@ func c11Gen(r *Rng, tier string, i int) Sx {
 	for d := r.Intn(4); d > 0 && r.Chance(2, 3); d-- {
 		prefixes = append(prefixes, c11Str(r, 4, false))
 	}
-	reg := c11Str(r, 7, false)
+	// a registered path may hold a literal '%xx' text: it is then reached by the request whose DECODED path spells it
+	// ("/a%252Fb"), not by the request whose escaped text happens to look like it ("/a%2Fb" is "/a/b")
+	reg := c11Str(r, 7, r.Chance(1, 4))
 	var raw string
 	switch r.Intn(10) {
 	case 0, 1, 2, 3, 4: // a spelling of the registered path: mostly-valid stream
